@@ -701,6 +701,7 @@ def run(ctx: Ctx):
             else:
                 kind = f"{out['status']}: obeys C17"
             ctx.count("observed_large_magnitude", kind)
+            ctx.count("observation_only", "demands beyond the judged magnitudes (float tableau)")
             continue
         if bad:
             small = shrink(case)
